@@ -65,13 +65,11 @@ def modelRun (dev : Dev) (p : Path) (xty : Ty) (c : Case) : Except Err Table :=
 
 /-- listed findings with a deviation switch: (id, switch setter, needs the error outcome?) -/
 def switches : List (String × (Dev → Dev)) :=
-  [ ("C21-F1", fun d => { d with sumDistinctEmptyZero := true }),
-    ("C21-F2", fun d => { d with emptyAggNullKeysUngrouped := true }),
+  -- repaired in /repo and therefore no attribution targets any more: F1 sumDistinctEmptyZero (2b108eb), F5 denseRefusesNullKeys
+  -- (4efd9ed), F8 NULL key = -1 (16c594a), F9 scalarMinMaxSentinel (988d68a), F10 qualifiedSumIntNull (ace82a4)
+  [ ("C21-F2", fun d => { d with emptyAggNullKeysUngrouped := true }),
     ("C21-F3", fun d => { d with nullKeyEmptyAccDropped := true }),
-    ("C21-F5", fun d => { d with denseRefusesNullKeys := true }),
-    ("C21-F6", fun d => { d with rawSumNoSeenBit := true }),
-    -- C21-F9 (scalarMinMaxSentinel) was repaired in /repo by 988d68a: no longer an attribution target
-    ("C21-F10", fun d => { d with qualifiedSumIntNull := true }) ]
+    ("C21-F6", fun d => { d with rawSumNoSeenBit := true }) ]
 
 /-- non-empty sublists, smallest first -/
 def subsets {α} : List α → List (List α)
@@ -93,7 +91,7 @@ def sameOutcome (o : Outcome) (msg : String) (m : Except Err Table) : Bool :=
 def sigMinMaxI32 (c : Case) (o : Outcome) (msg : String) : Bool :=
   match c.plan, o with
   | .project _ _ (.agg _ aggs _), .err _ =>
-    aggs.any (fun a => a.fn == .min || a.fn == .max) &&
+    aggs.any (fun a => a.fn == .min || a.fn == .max || a.fn == .avg || a.fn == .sum) &&
       ((msg.splitOn "with type Int32 not supported").length > 1 || (msg.splitOn "not implemented for type Int32").length > 1)
   | _, _ => false
 
@@ -160,11 +158,7 @@ def sigNullKeys (c : Case) (o : Outcome) (neutral : Option Outcome) (cat : Json)
        | .ok nref => sigEmptyAccDropped nk nout (normTable nref)
        | .error _ => false)
     if !(hasNull && nOk) then none else
-    if nk ≥ 2 && ks.any keyAllNull then some "C21-F4"
-    else if (List.range nk).any (fun j =>
-        ks.any (fun k => (k.getD j .null).isNull) &&
-        ks.any (fun k => k.getD j .null == .int (-1) || k.getD j .null == .date (-1))) then some "C21-F8"
-    else some "C21-F3"
+    if nk ≥ 2 && ks.any keyAllNull then some "C21-F4" else some "C21-F3"
   | _, _, _ => none
 
 def attrC21 (path : Path) (xty : Ty) (msg : String) (neutral : Option Outcome) (cat : Json) (pqQualified : Bool) : AttrFn :=
@@ -178,7 +172,6 @@ def attrC21 (path : Path) (xty : Ty) (msg : String) (neutral : Option Outcome) (
   | some (sw :: _) => some sw.1
   | _ =>
     if sigMinMaxI32 c o msg then some "C21-F7"
-    else if pqQualified && sigDenseF64 o msg then some "C21-F10"
     else match sigNullKeys c o neutral cat with
     | some f => some f
     | none =>
